@@ -259,7 +259,10 @@ def run(tier, seed, replay=None):
     from .core import run_parallel
     run_parallel(ctx, 'harness.c02', 'work', cases, nproc=4 if ctx.quick() else None)
     return finish(ctx, aud,
-                  partial=['root-sheet selection for hyperboloids (1+k<0) and Newton-Raphson convergence are numerical only',
+                  partial=['whole-surface / whole-lens theorems (traceSurf_*, traceLens_invariants) carry explicit hit guards: '
+                           'over R a masked root is the junk value 0, so the guard OneRoot adds |z + t N| < |z|; '
+                           'point-on-surface is proved for planes and conics (Newton-Raphson shapes: tolerance, numerical)',
+                           'root-sheet selection for hyperboloids (1+k<0) and Newton-Raphson convergence are numerical only',
                            'Chebyshev normal: derivative formula excluded at |x|=1'],
                   assumptions=['refractive indices/extinction taken from the implementation at the ray wavelength (C18)',
                                'IEEE-754 arithmetic is NaN-strict and deterministic'])
